@@ -34,6 +34,7 @@ def handle (cmd : String) (args : List Sx) : String :=
   -- the roll buffer model (same as C02's, any binary mode)
   | "c14.lb", _ => RgVerif.Driver.C02.handle "c02.lb" args
   | "c14.spec", _ => RgVerif.Driver.C02.handle "c02.spec" args
+  | "c14.lb2", _ => RgVerif.Driver.C02.handle "c02.lb2" args
   -- `c14.det <auto|binary|text> <nullData> <explicit>`: detection mode a file gets
   | "c14.det", [m, nd, ex] =>
     match parseMode m, nd.bool?, ex.bool? with
